@@ -34,6 +34,13 @@ CLAIMED.update({
         note=API_NOTE, technique="Coq induction over the replace loop + differential correspondence", design="7/C11"),
 })
 
+CLAIMED.update({
+    "C12": dict(
+        text="Machine-checked (Coq, closed): for EVERY valid UTF-8 string s and every captures, expanding Expander::escape(s) yields s, for the default ($) and the Python (\\) expander (C12_escape_roundtrip_*); escape borrows iff nothing needed escaping (C12_escape_borrow); Expander::check accepts a template only if every reference step names an existing group (C12_check_sound). The clause 'expansion follows the documented $-syntax' is decided by correspondence: the hand-written Expand model (a port of Expander::exec, parse_id, parse_decimal) must agree with the real expander through all four writer entry points, Captures::expand and check on every template up to a fixed length over the property's alphabet plus '-' and 'n', for capture sets with named, numbered and unmatched groups.",
+        note="Trusted: Coq kernel, extraction, harness. is_alphanumeric is modelled on the harness alphabet. No separate theorem states the documented tokenisation (the model itself is the formal reading of the documentation and is tied to the code by the exhaustive short-template comparison).",
+        technique="Coq induction over the character list of the escaped string + exhaustive differential correspondence on short templates", design="7/C12"),
+})
+
 PENDING_REASON = "check not built yet in this revision (see DESIGN.md section 12 build order); not claimed until its theorem and correspondence check exist"
 
 
